@@ -141,6 +141,16 @@ def _ops(e):
     return "+".join(ops)
 
 
+def _has_root_arg(f):
+    """a structural predicate with the constant (root) as an argument: always also sent through the numeric-quantifier path"""
+    k = f[0]
+    if k in ("forall", "exists"):
+        return _has_root_arg(f[5])
+    if k in ("not", "and", "or"):
+        return any(_has_root_arg(g) for g in f[1:])
+    return k == "pred" and "start" in (f[3], f[4])
+
+
 def wrap_numq(f, needle, kind):
     c = ("count", "start", needle, ("v", "nq"))
     if kind == "exists":
@@ -273,7 +283,7 @@ def run_chunk(chunk):
         try:
             with time_cap(240):
                 run_formula(r, gname, g, cg, f, trees, entries)
-                if gi % 3 == 0 and f[0] not in ("forall_int", "exists_int") and gname != "wide":
+                if (gi % 3 == 0 or _has_root_arg(f)) and f[0] not in ("forall_int", "exists_int") and gname != "wide":
                     kind = "exists" if gi % 2 == 0 else "forall"
                     fw = wrap_numq(f, needles[gi % len(needles)], kind)
                     run_formula(r, gname, g, cg, fw, trees, ["eval"] + (["check"] if gi % 9 == 0 else []))
